@@ -43,6 +43,9 @@ def families(tier, seed):
     shw = Shape(sys=co.SAME_WIDTH, name='same-width')
     out.append(_w('let(rename) between different hints', co.h_rename_replace, shw,
                   dict(pairs=[('p', 'r')], bool='b', hint_mismatch=[('p', 'q'), ('q', 'p'), ('q', 'r')])))
+    for hint0, hint1 in (((-3, -3), (-2, 1)), ((0, 3), (0, 1)), ((-2, 1), (0, 5))):
+        shl = Shape(sys=dict(a=hint0), name=f'a:{hint0}, then a_0:{hint1} declared separately')
+        out.append(_w('support/exist with an identifier named like a bit', co.h_support_lookalike_int, shl, dict(hint=hint1)))
     sh = Shape(sys=co.CONTEXTS['twins'], name='twins')
     out.append(_w('let(rename)/replace_with_bdd', co.h_rename_replace, sh,
                   dict(pairs=[('x', 'x2'), ('x2', 'x'), ('b', 'b2')], bool='b', mismatch=('x', 'b'), multi=MULTI)))
